@@ -82,4 +82,32 @@ theorem chainLen_pos_of_get (w : World) (o : Target) (k : Key) (v : Val) (h : w.
   | nil => rw [hc] at h; simp [Chain.get] at h
   | cons _ _ => simp
 
+/-- setting a property on a table stores the result of `Chain.set` on that table's own chain … -/
+theorem ownerChain_setProp_table (w : World) (t : Nat) (ht : t < w.tables.length) (k : Key) (v : Option Val) :
+    (w.setProp (.table t) k v).ownerChain (.table t) = (w.ownerChain (.table t)).set k v := by
+  simp [World.setProp, World.ownerChain, World.modTable, World.table, List.getD_eq_getElem?_getD, ht]
+
+/-- … so one `SetProperty` grows the link count by at most one, and not at all when the key is
+    already stored: what the harness's `chainlen` bound asks of the library after repeated sets -/
+theorem chainLen_setProp_table (w : World) (t : Nat) (ht : t < w.tables.length) (k : Key) (v : Option Val) :
+    (w.setProp (.table t) k v).chainLen (.table t) ≤ w.chainLen (.table t) + 1 ∧
+    (k ∈ (w.ownerChain (.table t)).keys →
+      (w.setProp (.table t) k v).chainLen (.table t) ≤ w.chainLen (.table t)) := by
+  unfold World.chainLen
+  rw [ownerChain_setProp_table w t ht]
+  exact c12_bounded _ k v
+
+/-- the same for a row -/
+theorem ownerChain_setProp_row (w : World) (r : Nat) (hr : r < w.rows.length) (k : Key) (v : Option Val) :
+    (w.setProp (.row r) k v).ownerChain (.row r) = (w.ownerChain (.row r)).set k v := by
+  simp [World.setProp, World.ownerChain, World.modRow, World.row, List.getD_eq_getElem?_getD, hr]
+
+theorem chainLen_setProp_row (w : World) (r : Nat) (hr : r < w.rows.length) (k : Key) (v : Option Val) :
+    (w.setProp (.row r) k v).chainLen (.row r) ≤ w.chainLen (.row r) + 1 ∧
+    (k ∈ (w.ownerChain (.row r)).keys →
+      (w.setProp (.row r) k v).chainLen (.row r) ≤ w.chainLen (.row r)) := by
+  unfold World.chainLen
+  rw [ownerChain_setProp_row w r hr]
+  exact c12_bounded _ k v
+
 end Tab
